@@ -16,3 +16,5 @@ pub(crate) use send_last_state_proof::{
     check_continuous_headers, check_if_response_is_matched, verify_tau, verify_total_difficulty,
     EpochDifficultyTrend, EstimatedLimit,
 };
+#[cfg(nervosnetwork_ckb_light_client_verif)]
+pub(crate) use send_transactions_proof::required_lemmas_count;
